@@ -48,7 +48,8 @@ class Ctx:
 
 class Case:
     def __init__(self, name, prop, recv_ty, recv, calls, assume, claims, bounds=None, notes=None, functions=None,
-                 expect_ok=True, max_paths=4000, loop_bound=40, timeout_ms=20000, free_fn=False, stubs=None, extra_syms=()):
+                 expect_ok=True, max_paths=4000, loop_bound=40, timeout_ms=20000, free_fn=False, stubs=None, extra_syms=(), check_side=True):
+        self.check_side = check_side
         self.stubs = stubs or {}
         self.extra_syms = tuple(extra_syms)
         self.name, self.prop, self.recv_ty, self.recv, self.calls = name, prop, recv_ty, recv, calls
@@ -197,7 +198,7 @@ def run_case(case, mir, schema, native=None, quick=True):
                         rec["_model"] = m2
                         rec["robust_witness"] = True
             # side conditions recorded by the engine on Ok paths (NaN/inf production, overflow)
-            if k == "ok":
+            if k == "ok" and getattr(case, "check_side", True):
                 for r in h.check_events(o, prefix="side:"):
                     r["claim"] = None
                     r["kind"] = k
